@@ -85,6 +85,16 @@ func runSignVar(sc M) {
 	if sc["slow"] == true {
 		signer = slowSigner{testKey(key)}
 	}
+	if sc["overlapped"] == true {
+		// while this update waits in its signer another complete update - other variable, payload, key and certificate - is produced
+		signer = duringSigner{testKey(key), func() {
+			og := guidOf(varGUIDWire, "global")
+			ov := efivar.Efivar{Name: "OtherVariable", GUID: &og, Attributes: attributes.Attributes(0x27)}
+			if _, m, err := signature.SignEFIVariable(ov, rawDB(storeValue("d3")), testKey("k3"), testCert("k3", "i2", "s2")); err == nil {
+				m.Bytes()
+			}
+		}}
+	}
 	burst := num(sc, "burst")
 	if burst < 1 {
 		burst = 1
